@@ -15,7 +15,7 @@ PROP = 'C20'
 CFG = {'quick': 'gen/MC_C20gen_q.cfg', 'thorough': 'gen/MC_C20gen_t.cfg'}
 POOL = os.path.join(vf.SPEC, 'validation', 'C20_pool.json')
 ROUNDS = {'quick': 2, 'thorough': 12}
-TSAN = {'TSAN_OPTIONS': 'halt_on_error=0 report_signal_unsafe=0 exitcode=0 history_size=4'}
+TSAN = {'TSAN_OPTIONS': 'halt_on_error=0 report_signal_unsafe=0 exitcode=0 history_size=4', 'HZ_CASE_CPU_SECONDS': '900'}    # (a case = up to 16 threads x hundreds of operations under TSan)
 
 
 SCHEMA_URI = {'d4': 'http://json-schema.org/draft-04/schema#', 'd6': 'http://json-schema.org/draft-06/schema#', 'd7': 'http://json-schema.org/draft-07/schema#',
